@@ -11,10 +11,10 @@ import (
 )
 
 type lockOp struct {
-	in    ssa.Instruction
-	mutex string // canonical name
-	kind  string // Lock, Unlock, RLock, RUnlock
-	addr  ssa.Value
+	in     ssa.Instruction
+	mutex  string // canonical name
+	kind   string // Lock, Unlock, RLock, RUnlock
+	addr   ssa.Value
 	defer_ bool
 }
 
